@@ -2,7 +2,7 @@
 import itertools
 import math
 
-from ..core import Acc, Viol
+from ..core import Acc, Viol, jhash
 from .. import pk, gen
 import propka.bonds
 from propka.atom import Atom
@@ -139,12 +139,17 @@ def plan(tier, seed):
     for key in (['3SGB'] if tier == 'quick' else ['3SGB', '1HPX', '4DFR', '1FTJ']):
         shards.append(('dense', key, None))
     shards.append(('bridge-run', None, None))
+    pl = pipeline_cases(tier)
+    shards += [('pipeline', pl[i::8], None) for i in range(8)]
     return dict(shards=shards, exhaustive=True,
                 rule=('atom 1 on {0.001,1.255,2.509}^3 inside each of the 8 cells around the origin; atom 2 at every '
                       'offset of a cubic lattice (step 0.3 quick / 0.2 thorough, |d|<=2.4) for element pairs C-C, S-S, '
                       'C-H, and on shells |r| = t +- {0.0005, 0.01}, t in {1.5,1.7,2.0,2.5}, in all 26 directions for '
                       'all 49 ordered element pairs over C,N,O,S,H,F,Fe; all 3-subsets of a 3x3x3 lattice (1.3 A) at 8 '
-                      'origins straddling cell faces; whole real structures; each in both atom orders. non-trivial = '
+                      'origins straddling cell faces; whole real structures; each in both atom orders; two atoms of every element pair '
+                      'on identical coordinates; full pipeline runs (default, -k) of real files and of protein/hetero pairs docked at '
+                      'covalent distance (CYS-thiol, carboxylate-ion, His-ion, Lys-ligand; two ions on one site), heavy-atom bonds '
+                      'of every conformation against the all-pairs rule. non-trivial = '
                       'distinct placements whose atoms fall into different cells or lie within 0.05 A of a threshold'),
                 bounds=dict(tier=tier, lattice_step=0.3 if tier == 'quick' else 0.2, max_atoms_synthetic=3),
                 samples=[dict(spec=[['C', -0.001, 1.0, 1.0], ['C', 0.001, 2.9, 1.0]], note='neighbour cell across x=0')])
@@ -244,7 +249,16 @@ def run_shard(shard, ctx):
             nflag = sum(1 for a in atoms if a.cysteine_bridge)
             if nflag != 2 * nss:
                 acc.viols.append(Viol(case, 'bridge', 'bridge-flag-count', '%d S-S bonds, %d flags' % (nss, nflag)))
+    elif kind == 'pipeline':
+        for case in p1:
+            pipeline_run(case, acc)
     elif kind == 'bridge-run':
+        # two distinct atoms on identical coordinates are a pair like any other
+        for e1, e2 in itertools.product(ELEMENTS, repeat=2):
+            for pos in ((0.0, 0.0, 0.0), (1.255, -3.3, 7.001)):
+                judge(bm, [(e1,) + pos, (e2,) + pos], acc)
+                acc.n += 1
+                acc.nontrivial.add('coincident/%s/%s/%s' % (e1, e2, pos))
         for d in (2.0, 2.04, 2.3, 2.499, 2.501, 2.7, 3.2):
             for opts in ((), ('-i', 'A:2,B:12'), ('-i', 'A:2'), ('-d',), ('--protonate-all',)):
                 bridge_run(dict(kind='bridge-run', d=d, opts=list(opts)), acc)
@@ -288,8 +302,97 @@ def bridge_run(case, acc):
                                                                   for g in groups + avr]), inputs=dict(pdb=text)))
 
 
+PIPE_PAIRS = [('CYS', 'MSH', (1.8, 2.04, 2.3, 2.7)), ('ASP', 'CA', (1.7, 1.95, 2.3)), ('HIS', 'ZN', (1.9, 2.1)), ('LYS', 'ACT', (1.5, 1.9, 2.2)),
+              ('GLU', 'MAM', (1.45, 2.1)), ('TYR', 'NA', (1.95, 2.4)), ('C-', 'MG', (1.9, 2.05)), ('N+', 'ACT', (1.6,))]
+
+
+def pipeline_cases(tier):
+    out = []
+    for key in (('3SGB', '4DFR') if tier == 'quick' else ('3SGB', '1HPX', '4DFR', '1FTJ')):
+        for opts in ((), ('-k',)):
+            out.append(dict(kind='pipeline', src='file', key=key, opts=list(opts)))
+    for a, b, ds in PIPE_PAIRS:
+        for d in ds:
+            for opts in ((), ('-k',)):
+                out.append(dict(kind='pipeline', src='pair', a=a, b=b, d=d, opts=list(opts)))
+    for ions in (('ZN', 'FE'), ('CA', 'CA'), ('MG', 'NA')):   # (a ligand atom on top of a protein atom makes ligand typing divide by zero: outside C11)
+        out.append(dict(kind='pipeline', src='coincident', ions=list(ions), opts=[]))
+    return out
+
+
+def pipeline_run(case, acc):
+    """The bonds the complete program works with (after reading, completion of conformations and protonation), restricted to
+    heavy atoms, are those of the all-pairs rule over the heavy atoms of each conformation - whatever record type they have."""
+    if case['src'] == 'file':
+        text = gen.library().text(case['key'])
+    elif case['src'] == 'pair':
+        text = gen.to_text(gen.pair(case['a'], case['b'], case['d']))
+    else:
+        k1, k2 = case['ions']
+        if k2 == 'CYS':     # a thiol sulfur refined onto the position of a cysteine SG
+            s = gen.pair('CYS', k1, 0.0)
+        else:
+            s = gen.pair('ASP', k1, 2.4)
+            first = [a for a in s.atoms if a.rec == 'HETATM'][0]
+            twin = gen.ion(k2, 'N', 21)
+            for a in twin.atoms:
+                a.x, a.y, a.z = first.x, first.y, first.z
+            s = gen.S(s.items + twin.items)
+            s.renumber_serials()
+        text = gen.to_text(s)
+    mol = pk.run(text, tuple(case['opts']))
+    bm = propka.bonds.BondMaker()
+    acc.n += 1
+    for name in mol.conformation_names:
+        heavy = [a for a in mol.conformations[name].atoms if a.element != 'H']
+        idx = {id(a): i for i, a in enumerate(heavy)}
+        got = set()
+        for i, a in enumerate(heavy):
+            for b in a.bonded_atoms:
+                if id(b) in idx:
+                    got.add((min(i, idx[id(b)]), max(i, idx[id(b)])))
+                    if b is a:
+                        acc.viols.append(Viol(case, 'pipeline', 'self-bond', str(a), inputs=dict(pdb=text)))
+        exp = set()
+        cell = {}
+        for i, a in enumerate(heavy):
+            cell.setdefault((math.floor(a.x / 3.0), math.floor(a.y / 3.0), math.floor(a.z / 3.0)), []).append(i)
+        for (cx, cy, cz), members in cell.items():       # reference neighbour search with 3 A cells, all 27 neighbours
+            for dx, dy, dz in itertools.product((-1, 0, 1), repeat=3):
+                for i in members:
+                    for j in cell.get((cx + dx, cy + dy, cz + dz), ()):
+                        if i < j:
+                            a, b = heavy[i], heavy[j]
+                            d = math.sqrt((a.x - b.x) ** 2 + (a.y - b.y) ** 2 + (a.z - b.z) ** 2)
+                            if d < 2.6 and criterion(a.element, b.element, d):
+                                exp.add((i, j))
+        mixed = sum(1 for i, j in exp if heavy[i].type != heavy[j].type)
+        acc.extra['pipeline_bonds_compared'] += len(exp)
+        acc.extra['pipeline_atom_hetatm_bonds'] += mixed
+        acc.nontrivial.add(jhash([case, name]))
+        acc.outcomes['pipeline mixed-record bonds=%d' % min(mixed, 3)] += 1
+        if got != exp:
+            diff = sorted((exp - got) | (got - exp))
+            i, j = diff[0]
+            kind = 'atom-hetatm' if heavy[i].type != heavy[j].type else heavy[i].type
+            zero = heavy[i].x == heavy[j].x and heavy[i].y == heavy[j].y and heavy[i].z == heavy[j].z
+            acc.viols.append(Viol(case, 'pipeline', 'pipeline-bonds-differ/%s/%s%s' % ('missing' if (i, j) in exp else 'extra', kind,
+                                                                                     '/coincident' if zero else ''),
+                                  '%s: %d heavy-atom bonds differ from the all-pairs rule, e.g. %s - %s' % (
+                                      name, len(diff), heavy[i], heavy[j]), inputs=dict(pdb=text, opts=case['opts'])))
+        for i, j in exp:
+            if heavy[i].element == 'S' and heavy[j].element == 'S' and not (heavy[i].cysteine_bridge and heavy[j].cysteine_bridge):
+                acc.viols.append(Viol(case, 'pipeline', 'bridge-flag-missing/pipeline', '%s - %s' % (heavy[i], heavy[j]), inputs=dict(pdb=text)))
+        for g in mol.conformations[name].groups:
+            if g.type == 'CYS' and g.atom.cysteine_bridge and (g.titratable or abs(g.pka_value - 99.99) > 1e-9):
+                acc.viols.append(Viol(case, 'pipeline', 'bridged-cys-consequence/pipeline', '%s titratable=%s pKa=%s' % (g.label, g.titratable, g.pka_value),
+                                      inputs=dict(pdb=text)))
+
+
 def run_case(case, ctx, acc):
     k = case.get('kind')
+    if k == 'pipeline':
+        return pipeline_run(case, acc)
     if k == 'atoms':
         bm = propka.bonds.BondMaker()
         acc.n += 1
